@@ -5,7 +5,8 @@ from hypothesis import strategies as st
 
 from conda_content_trust import authentication as A
 
-from vlib import gen_envelope as GE, gen_json as G, gen_metadata as GM, keys, ref_openpgp, ref_schema, ref_verify as RV
+from vlib import gen_envelope as GE, gen_json as G, gen_metadata as GM, keys, ref_openpgp, ref_schema, ref_verify as RV, \
+    related
 from vlib.ref_canon import canon
 from vlib.runner import Unit, Violation
 
@@ -23,7 +24,7 @@ ASSUMPTIONS = ["versions are Python ints; integral-float / bool versions are gra
                "cryptography raw Ed25519 as oracle primitive (cross-checked in C19)"]
 
 FLAWS = ["none", "none", "none", "version", "trusted_sigs", "own_sigs", "type_T", "type_N", "noroot_T", "noroot_N",
-         "malformed_T", "malformed_N", "junk_entry", "self_appointed", "threshold_from_new"]
+         "malformed_T", "malformed_N", "junk_entry", "self_appointed", "threshold_from_new", "spelling_dups"]
 VERSION_PLANS = ["v", "v-1", "v+2", "1", "huge", "v+1.0?"]
 ENTRY_STATES = ["valid", "valid", "valid", "valid", "nonce", "raw_shape", "bitflip", "other_payload", "misfiled"]
 
@@ -66,6 +67,10 @@ def root_pairs(draw):
         KN = rest or KN
         tN = 1
         signers = list(KN)
+    elif flaw == "spelling_dups":
+        # one signer short of the trusted threshold; the shortfall is "made up" by alternative spellings
+        tT = max(2, tT) if len(KT) >= 2 else 2
+        signers = KT[:tT - 1]
     elif flaw == "threshold_from_new":
         # enough for the offered root's (lower) threshold, not for the trusted one
         tN = 1
@@ -125,6 +130,11 @@ def root_pairs(draw):
         N["signatures"][pubs[i]] = e
     if flaw == "junk_entry":
         N["signatures"][draw(G.strings)] = draw(GE.JUNK_VALUES)
+    if flaw == "spelling_dups":
+        for i in signers:
+            if pubs[i] in N["signatures"]:
+                for v in draw(st.lists(st.sampled_from(GE.key_variants(pubs[i])), min_size=1, max_size=3, unique=True)):
+                    N["signatures"][v] = copy.deepcopy(N["signatures"][pubs[i]])
     # T is signed by somebody too (irrelevant to the rule, but realistic)
     if draw(st.booleans()):
         GM.sign_envelope(T, [seeds[i] for i in KT[:1]], True)
@@ -150,6 +160,46 @@ def conjuncts(T, N):
     return c
 
 
+def _compare(T, N, what):
+    expect = RV.root_update(T, N)
+    observed, exc = RV.outcome(A.verify_root, T, N)
+    bad = RV.mismatch(expect, observed)
+    if bad:
+        raise Violation("verify_root on a related input presented after an earlier call (%s): %s" % (what, bad),
+                        bucket=("false accept" if observed == "accept" else "false reject/class " + observed)
+                        + " verify_root (history)")
+    return 1
+
+
+def history_probes(T, N):
+    """Related offers right after the main call (same process): the offer object changed in place; the same
+    signatures on changed content; ==-equal retyping; a trusted root with the same identity fields but other keys."""
+    n = 0
+    if type(N.get("signed")) is not dict or type(T.get("signed")) is not dict:
+        return 0
+    same = copy.deepcopy(N)
+    RV.outcome(A.verify_root, T, same)
+    same["signed"]["verif-probe"] = [1]
+    n += _compare(T, same, "the SAME offered object changed in place")
+    forged = copy.deepcopy(N)
+    RV.outcome(A.verify_root, T, copy.deepcopy(N))
+    d = forged["signed"].get("delegations")
+    if type(d) is dict and type(d.get("key_mgr")) is dict and type(d["key_mgr"].get("pubkeys")) is list:
+        d["key_mgr"]["pubkeys"] = ["00" * 32]
+    else:
+        forged["signed"]["verif-probe"] = 2
+    n += _compare(T, forged, "signature entries copied verbatim onto different content")
+    # trusted root with the same type/version/timestamp but a different root rule
+    T2 = copy.deepcopy(T)
+    d = T2["signed"].get("delegations")
+    if type(d) is dict and type(d.get("root")) is dict and type(d["root"].get("pubkeys")) is list:
+        RV.outcome(A.verify_root, T, copy.deepcopy(N))
+        d["root"]["pubkeys"] = [keys.pub_hex(keys.POOL[15])]
+        d["root"]["threshold"] = 1
+        n += _compare(T2, copy.deepcopy(N), "trusted root with the same type/version/timestamp but another root rule")
+    return n
+
+
 def check_pair(case):
     T, N = case["T"], case["N"]
     t0, n0 = copy.deepcopy(T), copy.deepcopy(N)
@@ -160,6 +210,7 @@ def check_pair(case):
         raise Violation("verify_root: %s [flaw=%s] %s" % (bad, case["flaw"], str(exc)[:120]),
                         bucket=("false accept" if observed == "accept" else "false reject/class " + observed)
                         + " verify_root")
+    probes = history_probes(t0, n0)
     c = conjuncts(t0, n0)
     false_ones = [k for k, v in c.items() if v is False or v == "no"]
     rotated = (c.get("rootdeleg") and T["signed"]["delegations"]["root"]["pubkeys"]
@@ -169,7 +220,8 @@ def check_pair(case):
     labs += ["only-false=" + false_ones[0]] if len(false_ones) == 1 else []
     if expect.kind == "accept":
         labs.append("accept:rotated" if rotated else "accept:same-keys")
-    return {"nontrivial": bool(nontrivial), "labels": labs, "gray": expect.kind == "gray"}
+    return {"nontrivial": bool(nontrivial), "labels": labs, "gray": expect.kind == "gray",
+            "count": {"history_probes": probes}}
 
 
 UNITS = [
